@@ -73,6 +73,7 @@ func runRaceWindow(kind string, sc RaceScript, caseID, round int) ([]Ev, error) 
 				w.rec.log(Ev{Ev: "CbBegin", Op: op.id, Kind: "recv", Msg: m, Digest: digest(p)})
 				seen.Add(1)
 				w.rec.log(Ev{Ev: "CbEnd", Op: op.id, Kind: "recv", Msg: m, Digest: digest(p)})
+				poison(p)
 			})
 			return classify(ctx, err), 0
 		})
